@@ -19,7 +19,7 @@ EXPLANATION = (
     "return/raise/break/continue; an `if` with two empty branches may vanish only because every ast.If the generator builds has "
     "a side-effect-free test; every function-like scope opens its own `global` context; the set of visit_* methods is closed."
 )
-DECIDES = "the optimizer implements only the enumerated, meaning-preserving rewrites (table equality, operand order, expression sort, drop conditions, scope handling, closed visitor set)"
+DECIDES = "the optimizer implements only the enumerated, meaning-preserving rewrites (table equality, operand order, expression sort, drop conditions, scope handling, closed visitor set, arity and keyword guards by dominance, dead-code filter evaluated on all short statement lists incl. generator-ness)"
 DECLINED = "behavioural equality of concrete (before, after) module pairs"
 TRUSTED = ["FT-operator: operator.X <-> Python operator, arity and operand order (operator module docs)", "ast.NodeTransformer dispatches on visit_<ClassName>"]
 ASSUMPTIONS = []
